@@ -202,9 +202,9 @@ def slice_calls_deep(ctx, body, loc, operands, depth=0):
                 for rb in lc.return_blocks():
                     ret_op = {"k": "copy", "place": {"local": 0, "proj": [], "ty": lc.locals[0]["ty"]}}
                     out.extend(slice_calls_deep(ctx, lc, Loc(rb, len(lc.stmts(rb))), [ret_op], depth + 1))
-            for cb in c.closure_args():
+            for cb in c.closure_args() + c.fn_value_args():
                 for rb in cb.return_blocks():
-                    # slice of the closure's return value
+                    # slice of the closure's (or named function's) return value
                     ret_op = {"k": "copy", "place": {"local": 0, "proj": [], "ty": cb.locals[0]["ty"]}}
                     out.extend(slice_calls_deep(ctx, cb, Loc(rb, len(cb.stmts(rb))), [ret_op], depth + 1))
     return out
@@ -304,8 +304,25 @@ def rule_b_into(ctx):
             R.inst(fn=body.path, site=c.where(), iterator_side=side, verdict="ok" if side == MAIN else "VIOLATION")
             if side != MAIN:
                 R.viol("%s:into_iter_from:main" % body.path, c.where(), "main table is consumed with an iterator of %s" % (side or "unknown provenance"))
-    if n < 2:
-        R.anchor("old-into", "expected >= 2 consuming constructions over the old table (drain, into_iter), found %d" % n)
+    if n < 1:
+        R.anchor("old-into", "expected a consuming construction over the old table, found %d" % n)
+    # every owning composite iterator (into_iter, drain) gets its old side from such a construction
+    ro = ctx.roles
+    m = 0
+    for b in ctx.facts.bodies.values():
+        for loc, st in b.all_assigns():
+            rv = st["rv"]
+            if rv["k"] != "aggregate" or rv.get("adt") not in ro.composites or ro.composites[rv["adt"]]["family"] not in ("into", "drain"):
+                continue
+            m += 1
+            comp = ro.composites[rv["adt"]]
+            calls = slice_calls_deep(ctx, b, loc, [rv["ops"][comp["old"]]])
+            src = [c for c in calls if c.tname == HBT + "into_iter_from" and ctx.role(c.body, c.arg_path(0)) == OLD]
+            R.inst(fn=b.path, site=b.where(loc), composite=rv["adt"], old_side_from=[c.where() for c in src], verdict="ok" if src else "VIOLATION")
+            if not src:
+                R.viol("%s:old-side:%s" % (b.path, rv["adt"]), b.where(loc), "the old side of the owning iterator %s is not built by consuming the old table with its own cursor" % rv["adt"])
+    if m < 2:
+        R.anchor("owning-composites", "expected >= 2 constructions of owning composite iterators (into_iter, drain), found %d" % m)
     return R
 
 
@@ -504,6 +521,62 @@ def _old_field_edges(ctx, b):
     return option_test_edges(ctx, b, is_old_field, ignore_debug=False)
 
 
+def _variant_search(b, skip_edges, stop_blocks, goal):
+    """Depth-first search from the entry for a block satisfying `goal`, never crossing `skip_edges` nor entering `stop_blocks`.
+    Keeps track of which variant (Some / None) whole Option-typed locals were last assigned, so that a re-wrapped Option
+    (`match x { Some(e) => Some(e), None => None }`, an inlined helper's return value) does not open infeasible paths."""
+    def transfer(bb, env):
+        env = dict(env)
+        for st in b.stmts(bb):
+            if st["k"] != "assign":
+                continue
+            l = st["place"]["local"]
+            if st["place"]["proj"]:
+                if st["place"]["proj"][0]["k"] != "deref":
+                    env.pop(l, None)
+                continue
+            rv = st["rv"]
+            if rv["k"] == "aggregate" and rv.get("adt") == "core::option::Option":
+                env[l] = rv["variant"]
+            elif rv["k"] == "use" and rv["op"]["k"] in ("copy", "move") and not rv["op"]["place"]["proj"] and rv["op"]["place"]["local"] in env:
+                env[l] = env[rv["op"]["place"]["local"]]
+            else:
+                env.pop(l, None)
+        t = b.term(bb)
+        if t["k"] == "call" and "dest" in t:
+            env.pop(t["dest"]["local"], None)
+            if (t.get("callee") or "").endswith("FromResidual::from_residual") and not t["dest"]["proj"] \
+                    and b.ty(t["dest"]["ty"]).get("adt") == "core::option::Option":
+                env[t["dest"]["local"]] = "None"       # `?` on an Option: the early return value is None
+        return env
+    seen = set()
+    st = [(0, {}, [0])]
+    while st:
+        x, env, path = st.pop()
+        k = (x, tuple(sorted(env.items())))
+        if k in seen or x in stop_blocks:
+            continue
+        seen.add(k)
+        if goal(x):
+            return path
+        env2 = transfer(x, env)
+        t = b.term(x)
+        succs = list(b.succs(x))
+        if t["k"] == "switch":
+            d = b.source_def(t["discr"])
+            if d is not None and d[1] == "assign" and d[2]["rv"]["k"] == "discr" and not d[2]["rv"]["place"]["proj"]:
+                v = env2.get(d[2]["rv"]["place"]["local"])
+                if v in ("Some", "None"):
+                    want = 1 if v == "Some" else 0
+                    tg = [tb for val, tb in t["targets"] if val == want]
+                    succs = [tg[0]] if tg else [t["otherwise"]]
+        for s_ in succs:
+            if (x, s_) in skip_edges:
+                continue
+            st.append((s_, env2, path + [s_]))
+    return None
+
+
 def _check_owning_next(ctx, R, adt, b, key):
     """owning iterators: the main side is polled only after the old side was found absent or exhausted"""
     from rules_typestate import option_test_edges, N as N_, S as S_
@@ -519,24 +592,24 @@ def _check_owning_next(ctx, R, adt, b, key):
         res_edges = option_test_edges(ctx, b, lambda p, dl=dl: p.root == dl and not p.fields(), ignore_debug=False)
         ok_edges |= {e for e, v in res_edges.items() if v == N_}
     for c in main_next:
-        seen = set()
-        st = [(0, [0])]
-        w = None
-        while st:
-            x, path = st.pop()
-            if x in seen:
-                continue
-            seen.add(x)
-            if x == c.loc.bb:
-                w = path
-                break
-            for s_ in b.succs(x):
-                if (x, s_) in ok_edges:
-                    continue
-                st.append((s_, path + [s_]))
+        w = _variant_search(b, ok_edges, set(), lambda x, c=c: x == c.loc.bb)
         if w is not None:
             R.viol(key + ":main-before-old", c.where(), "the main side is polled on a path (%s) where the old side was neither absent nor exhausted: "
                    "remaining old-table elements would be skipped or the two sides interleaved with a stale length" % " -> ".join("bb%d" % x for x in w))
+    # exhaustion: next() may only return without having polled the main side on a path where the old side just yielded an element
+    # (the Some edge of its result); returning the old side's unexamined result, or None, while the main side still holds
+    # elements ends the iteration early
+    some_edges = set()
+    for c in old_next:
+        dl = c.dest["local"]
+        res_edges = option_test_edges(ctx, b, lambda p, dl=dl: p.root == dl and not p.fields(), ignore_debug=False)
+        some_edges |= {e for e, v in res_edges.items() if v == S_}
+    main_bbs = {c.loc.bb for c in main_next}
+    w = _variant_search(b, some_edges, main_bbs, lambda x: b.term(x)["k"] == "return")
+    if w is not None:
+        R.viol(key + ":early-none", b.where(Loc(w[-1], 0)), "next() of %s can return (path %s) without polling the main side although the old side did not "
+               "just yield an element: with an exhausted or empty old side the iteration ends while the main side still holds elements"
+               % (adt, " -> ".join("bb%d" % x for x in w)))
     took = [c for c in calls if c.name in (OPT + "take",) and ctx.role(b, c.arg_path(0)) == "IT_OLD"]
     return {"old_polled_first": True, "old_side_dropped_when_exhausted": bool(took)}
 
